@@ -1,7 +1,7 @@
 """A7 — panic-site inventory over the resolved call graph (DESIGN.md §3)."""
 import re
 
-from .callgraph import norm
+from .callgraph import norm, short
 from .cfg import Cfg, reach
 from .facts import callee, op_const, op_local, op_place
 
@@ -149,7 +149,8 @@ class Site:
 
     @property
     def key(self):
-        return "%s|%s" % (self.fn, self.kind)
+        # module-independent: moving a function to another file must not create "new" sites
+        return "%s|%s" % (short(self.fn), short(self.kind))
 
 
 def classify_call(t):
